@@ -3227,6 +3227,7 @@ where
             let mut cv = CBORValidator::new(self.state.cddl, self.cbor.clone());
 
             cv.state.generic_rules = self.state.generic_rules.clone();
+            cv.state.data_location = self.state.data_location.clone();
             cv.state.eval_generic_rule = Some(ident.ident);
             cv.state.is_group_to_choice_enum = true;
             cv.state.is_multi_type_choice = self.state.is_multi_type_choice;
@@ -3298,6 +3299,7 @@ where
             let mut cv = CBORValidator::new(self.state.cddl, self.cbor.clone());
 
             cv.state.generic_rules = self.state.generic_rules.clone();
+            cv.state.data_location = self.state.data_location.clone();
             cv.state.eval_generic_rule = Some(ident.ident);
             cv.state.is_multi_type_choice = self.state.is_multi_type_choice;
             cv.visit_rule(rule)?;
@@ -3370,6 +3372,7 @@ where
             let mut cv = CBORValidator::new(self.state.cddl, self.cbor.clone());
 
             cv.state.generic_rules = self.state.generic_rules.clone();
+            cv.state.data_location = self.state.data_location.clone();
             cv.state.eval_generic_rule = Some(ident.ident);
             cv.state.is_multi_type_choice = self.state.is_multi_type_choice;
             cv.visit_rule(rule)?;
@@ -4294,6 +4297,7 @@ where
         let mut cv = CBORValidator::new(self.state.cddl, self.cbor.clone());
 
         cv.state.generic_rules = self.state.generic_rules.clone();
+        cv.state.data_location = self.state.data_location.clone();
         cv.state.eval_generic_rule = Some(entry.name.ident);
         if let Some(rule) = cv
           .state
